@@ -61,6 +61,7 @@ func (e *Engine) verifyWith(fn *ssa.Function, safe bool, prop string, maxDepth i
 		vc.safe = true
 	}
 	vc.countNames = map[string]bool{}
+	vc.lastNames = map[string]bool{}
 	if c != nil {
 		collect := func(e ast.Expr) {
 			if e == nil {
@@ -70,6 +71,9 @@ func (e *Engine) verifyWith(fn *ssa.Function, safe bool, prop string, maxDepth i
 				if ce, ok := n.(*ast.CallExpr); ok {
 					if id, ok := ce.Fun.(*ast.Ident); ok && id.Name == "calls" && len(ce.Args) == 1 {
 						vc.countNames[exprStr(ce.Args[0])] = true
+					}
+					if id, ok := ce.Fun.(*ast.Ident); ok && id.Name == "lastcall" && len(ce.Args) == 1 {
+						vc.lastNames[exprStr(ce.Args[0])] = true
 					}
 				}
 				return true
@@ -95,6 +99,10 @@ func (e *Engine) verifyWith(fn *ssa.Function, safe bool, prop string, maxDepth i
 	}
 	for n := range vc.countNames {
 		vc.mapSort("$calls_"+strings.ReplaceAll(n, ".", "__"), "Int")
+	}
+	for n := range vc.lastNames {
+		vc.mapSort("$calls_$last_"+strings.ReplaceAll(n, ".", "__"), "Int")
+		vc.mapSort("$calls_$tick", "Int")
 	}
 	fr := vc.newFrame(fn, 0, "")
 	fr.isTop = true
